@@ -15,6 +15,8 @@ RULE = ("cases = generated 3D plotfiles (non-zero origin, anisotropic cells, 1-3
         "non-zero origin or anisotropic cells or level > 0")
 ASSUMPTIONS = ["scipy cubic-spline interpolation is exact at knots up to rounding",
                "generator trusted"]
+# the share of cases also run under python -O (1 = all): the anchor code validates with assert statements
+OPT_SUBSET = {"quick": 1, "thorough": 2}
 REQUIRED_OBS = {"queries": 300, "level_gt0": 30, "nonzero_origin": 100, "outside_refused": 30, "outside_within_a_cell": 100,
                 "multi_field": 100}
 TIMEOUT = {"quick": 300, "thorough": 1500}
